@@ -17,7 +17,10 @@ Inductive case :=
 | CFormat (f : bytes) (args : list farg) (obs : fres)
 | CMath (op : mop) (args : list num) (obs : mres num)
 | CRandom (args : list num) (obs : option Z)        (* None: the call raised *)
-| CGoSide (agree : bool).   (* a thin wrapper (pow exp log trig ...) compared with Go's math on the Go side *)
+| CGoSide (agree : bool)
+(* decided on the Go side where the implementation's yardstick (Go's math) and the definition part:
+   impl = the wrapper returned what Go's math returns; spec = the definition's exact value *)
+| CGoSide2 (impl_agrees spec_holds : bool).   (* a thin wrapper (pow exp log trig ...) compared with Go's math on the Go side *)
 
 Definition pair_eqb (a b : Z * Z) := (fst a =? fst b) && (snd a =? snd b).
 
@@ -73,6 +76,7 @@ Definition check_impl (c : case) : bool :=
     | _, _ => false
     end
   | CGoSide b => b
+  | CGoSide2 i _ => i
   end.
 
 Definition check_spec (c : case) : bool :=
@@ -98,4 +102,5 @@ Definition check_spec (c : case) : bool :=
   | CMath op args o => spec_math op args o
   | CRandom args o => spec_random args o
   | CGoSide b => b
+  | CGoSide2 _ sp => sp
   end.
